@@ -438,6 +438,8 @@ class Replayer:
         self.bind = {}                 # real file name -> model ts (learned at creation)
         self.objs = {}
         self.trunc_flag = {}           # obj -> its open read file was truncated by an overwrite
+        self.bump_binding = False      # no model expectation at hand and the code does not reuse timestamps: bind new
+                                       # names the way the intended design numbers them (newest + 1)
         if autocreate:
             self.objs[W] = self._new(W)
             for r in self.readers:
@@ -460,11 +462,17 @@ class Replayer:
         if a == 'write':
             self.nrec += 1
             val = w.codec.value(self.nrec, x)
+            prev = max([self.ts_of_name(lf.path) for lf in self.objs[W].logfiles], default=0)
             if y:
                 n = self.objs[W].write(val, w.ts_of(y))
             else:
                 n = self.objs[W].write(val)
             out['ret'] = n
+            if self.bump_binding:
+                for e in w.events:
+                    if e[0] == 'create' and not e[2] and e[1] not in self.bind:
+                        st = self.ts_of_name(e[1])
+                        self.bind[e[1]] = st if st > prev else prev + 1
             self.mon.after_write(self.nrec, x, w.events)
             # a truncating open hits every reader that has that inode open
             for e in w.events:
@@ -689,7 +697,9 @@ def replay_path(path, nodes, mode, unit=8, step=1.0, slack=(0, 0), utc=True):
                 res['compared'] += 1
                 if d:
                     res['drift'] = (i, f'after {lab}: {d}')
-            if exp is not None and res['drift'] is None and 'flags' in exp:
+            if out['exc'] is not None:
+                res['exc_seen'] = True       # the caller got an exception instead of data: `last` cannot be mirrored
+            if exp is not None and res['drift'] is None and 'flags' in exp and not res.get('exc_seen'):
                 mine = {v[0] for v in rp.mon.violations[nv:]}
                 spec = {n for n, k in (('C13_ExactlyOnceInOrder', 'eo'), ('C13_Budget', 'bu'), ('C13_NewestKept', 'nk'),
                                        ('C13_NoOverwrite', 'no')) if not exp['flags'][k]}
